@@ -611,6 +611,11 @@ pub type Own { vftable { pub fn f(&self) -> u32; pub fn g(&mut self, a: u32); pu
 /// C20: pairs of descriptions that say the same thing; the output must be byte-identical
 pub fn equivalent_pairs() -> Vec<(&'static str, String, String)> {
     vec![
+        // "reordering the type definitions of a module": also when two names differ only in case (seed C20-7: a case-insensitive sort
+        // key in write_module leaves such items in hash order / declaration order)
+        ("reordered definitions whose names differ only in case",
+         "#[align(4)] pub type RGBA { pub v: u32 }\n#[align(4)] pub type Rgba { pub r: u8, pub g: u8, pub b: u8, pub a: u8 }\n#[align(4)] pub type rgba { pub w: u32, pub x: u32 }\n#[address(0x100)] pub extern HANDLE: u32;\n#[address(0x200)] pub extern Handle: u32;\n#[address(0x300)] pub extern handle: u32;\n".into(),
+         "#[address(0x300)] pub extern handle: u32;\n#[address(0x200)] pub extern Handle: u32;\n#[align(4)] pub type rgba { pub w: u32, pub x: u32 }\n#[address(0x100)] pub extern HANDLE: u32;\n#[align(4)] pub type Rgba { pub r: u8, pub g: u8, pub b: u8, pub a: u8 }\n#[align(4)] pub type RGBA { pub v: u32 }\n".into()),
         ("explicit address the field already had",
          "#[align(8)] pub type T { pub a: u64, pub b: u64 }".into(), "#[align(8)] pub type T { pub a: u64, #[address(8)] pub b: u64 }".into()),
         ("explicit address on every field",
@@ -657,6 +662,12 @@ pub fn unrelated_pairs() -> Vec<(&'static str, &'static str, Mods, Mods)> {
         ("unrelated type added to an imported module", "user", vec![("lib", lib.clone()), ("user", user.clone())], vec![("lib", format!("{lib}pub type Extra {{ pub e: u8 }}\n")), ("user", user.clone())]),
         ("unrelated module nested below the observed one", "gfx", vec![("gfx", "pub type Plain { pub a: u32 }\n".to_string())], vec![("gfx", "pub type Plain { pub a: u32 }\n".to_string()), ("gfx::detail", "pub type Inner { pub b: u8 }\npub enum K: u8 { A }\n".to_string())]),
         ("nested unrelated module changed", "gfx", vec![("gfx", "pub type Plain { pub a: u32 }\n".to_string()), ("gfx::detail", "pub type Inner { pub b: u8 }\n".to_string())], vec![("gfx", "pub type Plain { pub a: u32 }\n".to_string()), ("gfx::detail", "pub type Inner2 { pub b: u16 }\n".to_string())]),
+        // the built-in `void` is spelled `()` by value and `::std::ffi::c_void` behind a pointer: an unrelated module that uses it in the
+        // other role must not change how this module spells it (seed C19-7: a memo in the type printer keyed by the path alone)
+        ("unrelated module uses void by value", "handles", vec![("handles", "pub type H { pub p: *mut void, pub q: *const void, pub n: u32, pub m: u32 }\n".to_string())],
+            vec![("handles", "pub type H { pub p: *mut void, pub q: *const void, pub n: u32, pub m: u32 }\n".to_string()), ("markers", "#[align(4)]\npub type M { pub v: void, pub x: u32 }\n".to_string())]),
+        ("unrelated module uses void behind a pointer", "markers", vec![("markers", "#[align(4)]\npub type M { pub v: void, pub x: u32 }\n".to_string())],
+            vec![("handles", "pub type H { pub p: *mut void, pub q: *const void, pub n: u32, pub m: u32 }\n".to_string()), ("markers", "#[align(4)]\npub type M { pub v: void, pub x: u32 }\n".to_string())]),
         ("unrelated module added next to an import", "user", vec![("lib", lib.clone()), ("user", user.clone())], vec![("lib", lib.clone()), ("user", user.clone()), ("aaa", "pub type L { pub other: u8 }\n".to_string())]),
     ]
 }
